@@ -10,6 +10,7 @@ import (
 	"io"
 	"math"
 	"math/rand/v2"
+	"sort"
 	"strconv"
 	"strings"
 )
@@ -609,4 +610,41 @@ func seqOrRuns(r *rand.Rand, alpha []byte, n int) []byte {
 		return runSeq(r, alpha, n)
 	}
 	return randSeq(r, alpha, n)
+}
+
+// roundLengths returns the "round" sizes up to limit that a chunked, blocked or
+// batched implementation is likely to be built around, each with its two
+// neighbours: k*10^j (k = 1..9), k*2^j (k = 1, 3, 5, 7, 9), 3*k*2^j (codons),
+// and every length up to 70. Lengths next to powers of two are everywhere in
+// this harness; 10 000, 30 000 or 3 072 are not next to any.
+func roundLengths(limit int) []int {
+	set := map[int]bool{}
+	add := func(v int) {
+		for d := -1; d <= 1; d++ {
+			if v+d >= 0 && v+d <= limit {
+				set[v+d] = true
+			}
+		}
+	}
+	for v := 0; v <= 70; v++ {
+		add(v)
+	}
+	for p := 10; p <= limit; p *= 10 {
+		for k := 1; k <= 9; k++ {
+			add(k * p)
+			add(3 * k * p)
+		}
+	}
+	for p := 64; p <= limit; p *= 2 {
+		for _, k := range []int{1, 3, 5, 7, 9} {
+			add(k * p)
+			add(3 * k * p)
+		}
+	}
+	out := make([]int, 0, len(set))
+	for v := range set {
+		out = append(out, v)
+	}
+	sort.Ints(out)
+	return out
 }
